@@ -13,7 +13,10 @@ Regenerated into coq/Gen/G_manager.v on every run, over coq/Lib/ManagerLib.v:
  3. who references serve_client / handle_request, Server.public, fallback names.
  4. what the real Server.create returns as `exposed` for the typeids list, dict, Value,
     Iterator of SyncManager._registry, and which methods their proxy classes define
-    (obtained by importing the working tree in a subprocess).
+    (obtained by importing the working tree in a subprocess); the same for a typeid registered
+    the way SyncManager registers Queue (`register('AList', list)`: no proxy type, no exposed
+    tuple -> AutoProxy, public_methods) -- what the registry stores for it, what create
+    exposes, and which methods MakeProxyType gives the proxy class built for that set.
 
 Everything outside the expected shapes raises GenError (=> broken obligation)."""
 import ast
@@ -450,27 +453,34 @@ def gen_proxy_init(tree):
 PROBE = r'''
 import json, threading
 from billiard import managers
-from billiard.managers import Server, SyncManager, BaseProxy
-reg = SyncManager._registry
+from billiard.managers import Server, SyncManager, BaseProxy, BaseManager, AutoProxy, MakeProxyType
+class _M(BaseManager):
+    pass
+_M.register('AList', list)
+reg = dict(SyncManager._registry)
+reg['AList'] = _M._registry['AList']
 srv = Server.__new__(Server)
 srv.registry = reg
 srv.id_to_obj = {'0': (None, ())}
 srv.id_to_refcount = {}
 srv.mutex = threading.RLock()
 srv.address = None
-args = {'list': ([1],), 'dict': ({1: 2},), 'Value': ('i', 3), 'Iterator': (iter([1]),)}
+args = {'list': ([1],), 'dict': ({1: 2},), 'Value': ('i', 3), 'Iterator': (iter([1]),), 'AList': ([1],)}
 out = {}
 for t, a in args.items():
     ident, exposed = srv.create(None, t, *a)
     stored = srv.id_to_obj[ident]
     assert set(exposed) == stored[1]
     pt = reg[t][3]
+    if pt is AutoProxy:          # the class AutoProxy() builds for this exposed set
+        pt = MakeProxyType('AutoProxy[%s]' % t, exposed)
     meths = set()
     for c in pt.__mro__:
         if c not in (BaseProxy, object):
             meths |= {k for k, v in vars(c).items() if callable(v)}
     out[t] = dict(exposed=sorted(set(exposed)), m2t=sorted((stored[2] or {}).items()),
-                  proxy_methods=sorted(meths), refcount=srv.id_to_refcount[ident])
+                  proxy_methods=sorted(meths), refcount=srv.id_to_refcount[ident],
+                  auto=reg[t][3] is AutoProxy, reg_exposed=reg[t][1])
 out['fallback'] = sorted(Server.fallback_mapping)
 print(json.dumps(out))
 '''
@@ -484,7 +494,10 @@ def gen_registry(repo):
         raise GenError('registry probe failed: ' + p.stderr[-600:])
     d = json.loads(p.stdout.strip().split('\n')[-1])
     out = []
-    for t, nm in (('list', 'list'), ('dict', 'dict'), ('Value', 'value'), ('Iterator', 'iter')):
+    if not d['AList']['auto'] or d['AList']['reg_exposed'] is not None:
+        raise GenError('register(typeid, callable) no longer stores (callable, None, None, AutoProxy)')
+    for t, nm in (('list', 'list'), ('dict', 'dict'), ('Value', 'value'), ('Iterator', 'iter'),
+                  ('AList', 'autolist')):
         if d[t]['m2t']:
             raise GenError('typeid %s now has a method_to_typeid' % t)
         out.append('Definition exposed_%s : list string := %s.' % (nm, cstrs(d[t]['exposed'])))
